@@ -123,6 +123,52 @@ class Machines:
         return res
 
 
+def api_arg_makers(prog, it, fname):
+    """argument lists an application may pass to an exported function: one maker per combination
+    (enumeration-typed integers free in their range, other integers free, strings and objects symbolic)"""
+    fn = prog.functions[fname]
+    variants = [[]]
+    for p in fn['_params'][1:]:
+        q = p['type'].get('desugaredQualType', p['type']['qualType'])
+        nv = []
+        for v in variants:
+            if p['type']['qualType'] == 'cat_fsm_type':
+                nv.append(v + [('const', 0)])
+                nv.append(v + [('const', 1)])
+            elif prog.int_type(q) is not None:
+                nv.append(v + [('int', p)])
+            elif 'char' in q:
+                nv.append(v + [('str', p)])
+            else:
+                nv.append(v + [('ptr', p)])
+        variants = nv
+
+    def maker(var):
+        def mk(s):
+            args = [SELF]
+            for a in var:
+                if a[0] == 'const':
+                    args.append(Lin.c(a[1]))
+                elif a[0] == 'int':
+                    x = it.fresh(s, 'arg:' + a[1]['name'], a[1]['type'])
+                    en = prog.enum_of(a[1]['type'])
+                    if en is not None:
+                        vals = en['consts'].values()
+                        s.facts.iv['arg:' + a[1]['name']] = (min(vals), max(vals))
+                    args.append(x)
+                elif a[0] == 'str':
+                    args.append(('mem', ('dstr', 'ARG_' + a[1]['name']), Lin.c(0)))
+                    s.pnull['ARG_' + a[1]['name']] = False
+                else:
+                    nm = {'desc': 'DESC', 'io': 'IO', 'mutex': 'MUTEX'}.get(a[1]['name'], 'ARG_' + a[1]['name'])
+                    args.append(('obj', nm))
+                    if nm != 'MUTEX':
+                        s.pnull[nm] = False
+            return args
+        return mk
+    return [maker(v) for v in variants]
+
+
 def is_cmd_loc(loc):
     return loc[0] == 'S' and (len(loc) < 2 or loc[1] != 'unsolicited_fsm')
 
@@ -179,6 +225,7 @@ class Explorer:
         self.it = ms.it
         self.model = ms.model
         self.which = which            # 'cmd' | 'evt'
+        self._env_actions = None
         self.store = {}               # key -> [State, visits]
         self.transitions = []
         self.stats = {'steps': 0, 'joins': 0, 'time': 0.0}
@@ -489,27 +536,58 @@ class Explorer:
         return '?'
 
     # ------------------------------------------------------------------ stepping
+    def env_actions(self):
+        """the exported functions through which the application can change what this machine's explored
+        state contains, between two service calls: found by running each on an unconstrained object and
+        looking at the fields it stores (cat_init and cat_service are not calls between steps; the event
+        ring is not part of either machine's explored state)"""
+        if self._env_actions is not None:
+            return self._env_actions
+        it, prog = self.it, self.ms.prog
+        acts = []
+        for f in sorted(n for n, fn in prog.functions.items() if fn.get('storageClass') != 'static'):
+            if f in ('cat_init', 'cat_service'):
+                continue
+            for i, mk in enumerate(api_arg_makers(prog, it, f)):
+                s = State()
+                s.pnull['DESC'] = False
+                s.pnull['IO'] = False
+                s.pnull['MUTEX'] = True
+                s.mem[('S', 'desc')] = ('obj', 'DESC')
+                s.mem[('S', 'io')] = ('obj', 'IO')
+                stores = set()
+                for s2, rv in it.run_function(f, s, mk(s)):
+                    for e in trace_events(s2.trace):
+                        if e['k'] == 'st' and e['loc'][0] == 'S' and self.own(e['loc']):
+                            if len(e['loc']) > 2 and e['loc'][1] == 'unsolicited_fsm' and e['loc'][2] in RING_FIELDS:
+                                continue
+                            stores.add(e['loc'])
+                if stores:
+                    acts.append((f, i, mk, sorted(stores)))
+        self._env_actions = acts
+        return acts
+
     def env_states(self, s0):
-        """the states a step may start from: s0 itself, and s0 after each action of the environment
-        that touches the command machine's fields between two service calls - the release request,
-        from the application (cat_hold_exit) or from an event handler (same helper).  The action is
-        not modelled: the body of cat_hold_exit is interpreted on the state, for either status.
-        (Outside a hold the request changes nothing: that is rule C14/spurious, checked on the
-        function itself.)"""
+        """the states a step may start from: s0 itself, and s0 after each call by which the environment
+        (the application, or an event handler through the same helper) can change this machine's
+        fields between two service calls.  Nothing about these calls is modelled: the bodies of the
+        exported functions found by env_actions() are interpreted on the state; calls that leave it
+        unchanged are dropped.  On the pinned tree the only such call is the release request
+        (cat_hold_exit), and it changes something only during a hold."""
         s = s0.copy()
         s.trace = None
         s.pnull['MUTEX'] = True           # locking is C16's subject, not the machines'
         outs = [('none', s)]
-        if self.which == 'cmd':
-            hf = s.mem.get(('S', 'hold_state_flag'))
-            if not (is_lin(hf) and hf.is_const() and hf.const == 0):
-                E = self.ms.prog.enums
-                for nm, status in (('release(OK)', E['CAT_STATUS_OK']), ('release(ERROR)', E['CAT_STATUS_ERROR'])):
-                    for s2, rv in self.it.run_function('cat_hold_exit', s.copy(), [SELF, Lin.c(status)]):
-                        s2.trace = None
-                        s2.stack = ()
-                        if not any(self.it.same_state(s2, o) for _, o in outs):
-                            outs.append((nm, s2))
+        for f, i, mk, stores in self.env_actions():
+            s1 = s.copy()
+            args = mk(s1)
+            for s2, rv in self.it.run_function(f, s1, args):
+                s2.trace = None
+                s2.stack = ()
+                # the call's own temporaries are not state
+                s2.facts.drop_atoms(lambda a: a.startswith('arg:'))
+                if not any(self.it.same_state(s2, o) for _, o in outs):
+                    outs.append(('%s#%d' % (f, i), s2))
         return outs
 
     def step_env(self, s0, with_trace=False):
@@ -556,6 +634,7 @@ class Explorer:
         dbg = os.environ.get('CATSA_DEBUG')
         if self.live is None:
             self.compute_liveness()
+        self.env_actions()
         pending = set()
         byk = {}
         for s in inits:
@@ -635,6 +714,7 @@ class Explorer:
     def collect(self):
         """final pass over the fixpoint: transitions with their effect graphs"""
         self.transitions = []
+        self.env_actions()
         for res in self._pmap(_worker_collect, list(self.store.keys())):
             for t in res:
                 # the state the step started from: the stored one, or that after the environment's action
